@@ -323,34 +323,35 @@ def kidsF (φ : Reached α → α) : List (V α) → α → α
   | k :: ks, r => rsum φ (frontier k r) + kidsF φ ks r
 
 mutual
-theorem part_collect (φ : Reached α → α) : ∀ (t : V α) (c : α),
+theorem part_collect (φ : Reached α → α) : ∀ (t : V α) (c : α), 0 < c →
     rsum φ (collect t c) = rsum φ (frontier t c)
       + rsum (fun n => kidsF φ n.kids n.reach) (collect t c)
-  | .term _, c => by simp [collect, frontier]
-  | .nature ws ks, c => by
-    simp only [collect, frontier]; exact part_collectN φ ws ks c
-  | .decide i ks, c => by
+  | .term _, c, _ => by simp [collect, frontier]
+  | .nature ws ks, c, hc => by
+    simp only [collect, frontier]; exact part_collectN φ ws ks c hc
+  | .decide i ks, c, hc => by
     simp only [collect, frontier, rsum_cons, rsum_nil]
-    rw [part_collectD φ ks c]; ring
-theorem part_collectN (φ : Reached α → α) : ∀ (ws : List α) (ks : List (V α)) (c : α),
+    rw [part_collectD φ ks c hc]; ring
+theorem part_collectN (φ : Reached α → α) : ∀ (ws : List α) (ks : List (V α)) (c : α), 0 < c →
     rsum φ (collectN ws ks c) = rsum φ (frontierN ws ks c)
       + rsum (fun n => kidsF φ n.kids n.reach) (collectN ws ks c)
-  | [], _, c => by simp [collectN, frontierN]
-  | _ :: _, [], c => by simp [collectN, frontierN]
-  | w :: ws, k :: ks, c => by
+  | [], _, c, _ => by simp [collectN, frontierN]
+  | _ :: _, [], c, _ => by simp [collectN, frontierN]
+  | w :: ws, k :: ks, c, hc => by
     simp only [collectN, frontierN, rsum_append]
-    rw [part_collectN φ ws ks c]
+    rw [part_collectN φ ws ks c hc]
     by_cases hp : 0 < w
-    · simp only [hp, if_true]
-      rw [part_collect φ k (w * c)]; ring
+    · have hwc : 0 < w * c := mul_pos hp hc
+      simp only [hp, hwc, decide_true, Bool.and_self, if_true]
+      rw [part_collect φ k (w * c) hwc]; ring
     · simp [hp]
-theorem part_collectD (φ : Reached α → α) : ∀ (ks : List (V α)) (c : α),
+theorem part_collectD (φ : Reached α → α) : ∀ (ks : List (V α)) (c : α), 0 < c →
     rsum φ (collectD ks c) = kidsF φ ks c
       + rsum (fun n => kidsF φ n.kids n.reach) (collectD ks c)
-  | [], c => by simp [collectD, kidsF]
-  | k :: ks, c => by
+  | [], c, _ => by simp [collectD, kidsF]
+  | k :: ks, c, hc => by
     simp only [collectD, kidsF, rsum_append]
-    rw [part_collect φ k c, part_collectD φ ks c]; ring
+    rw [part_collect φ k c hc, part_collectD φ ks c hc]; ring
 end
 
 /-! ## weights of own histories -/
@@ -397,59 +398,61 @@ def loc (τ : Strat α) (mu : List α) (h : Reached α) : α :=
 
 mutual
 theorem tele (N : Nat) (nActs : Nat → Nat) (hist : Nat → Hist) (τ : Strat α) (mu : List α) :
-    ∀ (t : V α) (H : Hist) (c : α), VOK N nActs t → PRV hist H t →
+    ∀ (t : V α) (H : Hist) (c : α), 0 < c → VOK N nActs t → PRV hist H t →
       histW τ H * (c * (evV τ t - search mu t))
         = rsum (fun h => histW τ (hist h.info) * loc τ mu h) (collect t c)
-  | .term u, H, c, _, _ => by simp [evV, search, collect]
-  | .nature ws ks, H, c, h, hp => by
+  | .term u, H, c, _, _, _ => by simp [evV, search, collect]
+  | .nature ws ks, H, c, hc, h, hp => by
     obtain ⟨_, hw, hk⟩ := (by simpa [VOK] using h :
       ws.length = ks.length ∧ (∀ w ∈ ws, 0 ≤ w) ∧ VOKL N nActs ks)
     have hp' : PRVL hist H ks := by simpa [PRV] using hp
     simp only [evV, search, collect]
-    exact teleN N nActs hist τ mu ws ks H c hw hk hp'
-  | .decide i ks, H, c, h, hp => by
+    exact teleN N nActs hist τ mu ws ks H c hc hw hk hp'
+  | .decide i ks, H, c, hc, h, hp => by
     obtain ⟨_, _, _, hk⟩ := (by simpa [VOK] using h :
       i < N ∧ ks.length = nActs i ∧ 1 ≤ ks.length ∧ VOKL N nActs ks)
     obtain ⟨hH, hd⟩ := (by simpa [PRV] using hp : hist i = H ∧ PRVD hist H i 0 ks)
-    have := teleD N nActs hist τ mu ks H i 0 c hk hd
+    have := teleD N nActs hist τ mu ks H i 0 c hc hk hd
     rw [List.drop_zero] at this
     simp only [evV, search, collect, rsum_cons]
     rw [← this, evVN_eq_dot]
     simp only [loc]
     rw [hH]; ring
 theorem teleN (N : Nat) (nActs : Nat → Nat) (hist : Nat → Hist) (τ : Strat α) (mu : List α) :
-    ∀ (ws : List α) (ks : List (V α)) (H : Hist) (c : α), (∀ w ∈ ws, 0 ≤ w) → VOKL N nActs ks →
-      PRVL hist H ks →
+    ∀ (ws : List α) (ks : List (V α)) (H : Hist) (c : α), 0 < c → (∀ w ∈ ws, 0 ≤ w) →
+      VOKL N nActs ks → PRVL hist H ks →
       histW τ H * (c * (evVN τ ws ks - searchN mu ws ks))
         = rsum (fun h => histW τ (hist h.info) * loc τ mu h) (collectN ws ks c)
-  | [], ks, H, c, _, _, _ => by simp [evVN, searchN, collectN]
-  | _ :: _, [], H, c, _, _, _ => by simp [evVN, searchN, collectN]
-  | w :: ws, k :: ks, H, c, hw, hk, hp => by
+  | [], ks, H, c, _, _, _, _ => by simp [evVN, searchN, collectN]
+  | _ :: _, [], H, c, _, _, _, _ => by simp [evVN, searchN, collectN]
+  | w :: ws, k :: ks, H, c, hc, hw, hk, hp => by
     obtain ⟨h1, h2⟩ := (by simpa [VOKL] using hk : VOK N nActs k ∧ VOKL N nActs ks)
     obtain ⟨p1, p2⟩ := (by simpa [PRVL] using hp : PRV hist H k ∧ PRVL hist H ks)
-    have a := tele N nActs hist τ mu k H (w * c) h1 p1
-    have b := teleN N nActs hist τ mu ws ks H c (fun w hw' => hw w (by simp [hw'])) h2 p2
+    have b := teleN N nActs hist τ mu ws ks H c hc (fun w hw' => hw w (by simp [hw'])) h2 p2
     have hw0 : 0 ≤ w := hw w (by simp)
     simp only [evVN, searchN, collectN, rsum_append]
     rw [← b]
     by_cases hp : 0 < w
-    · simp only [hp, if_true]
+    · have hwc : 0 < w * c := mul_pos hp hc
+      have a := tele N nActs hist τ mu k H (w * c) hwc h1 p1
+      simp only [hp, hwc, decide_true, Bool.and_self, if_true]
       rw [← a]; ring
     · have : w = 0 := le_antisymm (not_lt.mp hp) hw0
       subst this
       simp
 theorem teleD (N : Nat) (nActs : Nat → Nat) (hist : Nat → Hist) (τ : Strat α) (mu : List α) :
-    ∀ (ks : List (V α)) (H : Hist) (i a : Nat) (c : α), VOKL N nActs ks → PRVD hist H i a ks →
+    ∀ (ks : List (V α)) (H : Hist) (i a : Nat) (c : α), 0 < c → VOKL N nActs ks →
+      PRVD hist H i a ks →
       histW τ H * (c * (dot ((τ.at i).drop a) (ks.map (evV τ))
           - dot ((τ.at i).drop a) (ks.map (search mu))))
         = rsum (fun h => histW τ (hist h.info) * loc τ mu h) (collectD ks c)
-  | [], H, i, a, c, _, _ => by simp [collectD]
-  | k :: ks, H, i, a, c, hk, hp => by
+  | [], H, i, a, c, _, _, _ => by simp [collectD]
+  | k :: ks, H, i, a, c, hc, hk, hp => by
     obtain ⟨h1, h2⟩ := (by simpa [VOKL] using hk : VOK N nActs k ∧ VOKL N nActs ks)
     obtain ⟨p1, p2⟩ := (by simpa [PRVD] using hp :
       PRV hist (H ++ [(i, a)]) k ∧ PRVD hist H i (a + 1) ks)
-    have a' := tele N nActs hist τ mu k (H ++ [(i, a)]) c h1 p1
-    have b := teleD N nActs hist τ mu ks H i (a + 1) c h2 p2
+    have a' := tele N nActs hist τ mu k (H ++ [(i, a)]) c hc h1 p1
+    have b := teleD N nActs hist τ mu ks H i (a + 1) c hc h2 p2
     simp only [collectD, rsum_append, List.map_cons, dot_drop]
     rw [← a', ← b, histW_snoc]; ring
 end
@@ -493,8 +496,9 @@ theorem collectN_ok (N : Nat) (nActs : Nat → Nat) (hist : Nat → Hist) :
     simp only [collectN, List.mem_append] at hx
     rcases hx with hx | hx
     · by_cases hw : 0 < w
-      · simp only [hw, if_true] at hx
-        exact collect_ok N nActs hist k H (w * c) (mul_pos hw hc) h1 p1 x hx
+      · have hwc : 0 < w * c := mul_pos hw hc
+        simp only [hw, hwc, decide_true, Bool.and_self, if_true] at hx
+        exact collect_ok N nActs hist k H (w * c) hwc h1 p1 x hx
       · simp [hw] at hx
     · exact collectN_ok N nActs hist ws ks H c hc h2 p2 x hx
 theorem collectD_ok (N : Nat) (nActs : Nat → Nat) (hist : Nat → Hist) :
@@ -776,7 +780,7 @@ theorem ev_sub_search (N : Nat) (nActs : Nat → Nat) (hist : Nat → Hist) (v :
       (dot (τ.at J) (infoPayoffs (collect v 1) (nActs J) J mu)
         - total (collect v 1) J * mu.getD J 0) := by
   have hn := collect_ok N nActs hist v [] 1 one_pos hok hpr
-  have t := tele N nActs hist τ mu v [] 1 hok hpr
+  have t := tele N nActs hist τ mu v [] 1 one_pos hok hpr
   rw [histW_nil, one_mul, one_mul] at t
   rw [t, rsum_by_info N (fun J => histW τ (hist J)) (loc τ mu) _ (fun n h => (hn n h).1)]
   apply Finset.sum_congr rfl
